@@ -12,7 +12,7 @@ SHARD = 25
 RULE = ("random container trees (depth <= 3, fan-out <= 3, abstract flags, a shared nested container, restriction criteria of every "
         "form on header and user-data fields) x packets with APID/selector values drawn from the values the criteria mention "
         "(every branch, dead end and ambiguity is reachable) sized exactly / one byte short / one byte long; unrecognized packets "
-        "reported with their partial data; an APID parameter with another name; distinct = distinct (definition, packet)")
+        "reported with their partial data; an APID parameter with another name; every third definition loaded from an XML document; distinct = distinct (definition, packet)")
 ASSUMPTIONS = ["field decoding is the C04/C07/C08 model; the header / user_data views of every yielded packet and of every error's partial data are compared with the first seven / remaining items on the implementation (a difference is an item kind the model never produces)"]
 coq_input = genrun.coq_input
 impl = genrun.impl
@@ -23,20 +23,31 @@ def gen(rng, tier):
     ndefs = 60 if tier == "quick" else 700
     for i in range(ndefs):
         doc = defgen.rnd_definition(rng, apid_name="PKT_APID" if i % 4 else "APPLICATION_ID")
-        dobj = defgen.try_build(doc)
+        via = "xml" if i % 3 == 2 else "objects"
+        if via == "xml":
+            # every third definition reaches the decoder through the XML loader (back-filled inheritors, containers parsed on first
+            # reference, duplicate handling): what the loader makes of the constants is in the case
+            import xmlgen
+            doc = xmlgen.to_xml_loadable(doc)
+            try:
+                dobj = xmlgen.load(xmlgen.document_xml(doc, ("prefix", "xtce")), ("prefix", "xtce"))
+            except Exception:  # noqa: BLE001  (kept: a generated document that does not load disagrees with the model)
+                dobj = None
+        else:
+            dobj = defgen.try_build(doc)
         pkts = []
         for _ in range(6):
             pkts += defgen.fit_packet(dobj, defgen.rnd_packet(rng, rng.randrange(1, 30)))[:rng.choice([1, 1, 3])]
         rng.shuffle(pkts)
         for j in range(0, len(pkts), 4):
             opts = dict(genrun.DEFAULT_OPTS, yield_unrecognized=True, parse_bad_pkts=rng.random() < 0.8)
-            cases.append({"doc": doc, "opts": opts, "packets": [p.hex() for p in pkts[j:j + 4]]})
+            cases.append({"doc": doc, "opts": opts, "packets": [p.hex() for p in pkts[j:j + 4]], "via": via})
     return cases
 
 
 def key(case):
     import json
-    return json.dumps([case["doc"]["containers"], case["packets"], case["opts"]], sort_keys=True)
+    return json.dumps([case["doc"]["containers"], case["packets"], case["opts"], case.get("via")], sort_keys=True)
 
 
 def branch(case, out):
